@@ -215,6 +215,54 @@ done:
   return 1;
 }
 
+
+/* capsweep <w> <h> <quality> <icclen> <seed> <subsamp> : every initial capacity from 1 to size+4 of a small JPEG (with an ICC profile
+ * of <icclen> bytes when non-zero), with reallocation disabled (exact-size heap buffer) and enabled (fresh handle each time, so that
+ * no buffer address is ever handed back to a handle that remembers it).  The contract of the property at every boundary. */
+static tjhandle c13_handle(int q, int ss, const unsigned char *icc, int icclen)
+{
+  tjhandle h = tj3Init(TJINIT_COMPRESS);
+  tj3Set(h, TJPARAM_SUBSAMP, ss); tj3Set(h, TJPARAM_QUALITY, q);
+  if (icclen > 0) tj3SetICCProfile(h, (unsigned char *)icc, (size_t)icclen);
+  return h;
+}
+static int op_capsweep(toks_t *t)
+{
+  int w = (int)tl(t, 1), hgt = (int)tl(t, 2), q = (int)tl(t, 3), icclen = (int)tl(t, 4), ss = (int)tl(t, 6), rc, bad = 0;
+  size_t n = (size_t)w * hgt * 3, i, refsize = 0, cap; unsigned char *img = (unsigned char *)malloc(n + 1), *icc = (unsigned char *)malloc((size_t)icclen + 1), *ref = NULL;
+  char why[240] = ""; tjhandle h;
+  xs_state = 0x9E3779B97F4A7C15ULL ^ (unsigned long long)tl(t, 5) * 0x100000001B3ULL;
+  for (i = 0; i < n; i++) img[i] = (unsigned char)xs_next();
+  for (i = 0; i < (size_t)icclen; i++) icc[i] = (unsigned char)(i * 31 + 7);
+  h = c13_handle(q, ss, icc, icclen);
+  { size_t js = 0; rc = tj3Compress8(h, img, w, 0, hgt, TJPF_RGB, &ref, &js); refsize = js; }
+  if (rc < 0) { printf("R err %s\n", tj3GetErrorStr(h)); printf("O ok\n"); goto done; }
+  printf("R size %zu\n", refsize);
+  tj3Set(h, TJPARAM_NOREALLOC, 1);
+  for (cap = 1; cap <= refsize + 4 && !bad; cap++) {
+    unsigned char *jb0 = (unsigned char *)malloc(cap), *jb = jb0; size_t js = cap;
+    rc = tj3Compress8(h, img, w, 0, hgt, TJPF_RGB, &jb, &js);
+    if (rc == 0 && (js > cap || jb != jb0 || js != refsize || memcmp(jb, ref, refsize))) { bad = 1; snprintf(why, sizeof(why), "no reallocation, capacity %zu: success with reported size %zu (the JPEG has %zu bytes)", cap, js, refsize); }
+    else if (rc == 0 && cap < refsize) { bad = 1; snprintf(why, sizeof(why), "no reallocation, capacity %zu below the JPEG size %zu: success", cap, refsize); }
+    else if (rc < 0 && cap > refsize) { bad = 1; snprintf(why, sizeof(why), "no reallocation, capacity %zu above the JPEG size %zu: %s", cap, refsize, tj3GetErrorStr(h)); }
+    free(jb0);
+  }
+  for (cap = 1; cap <= refsize + 4 && !bad; cap++) {
+    tjhandle h2 = c13_handle(q, ss, icc, icclen);
+    unsigned char *jb0 = (unsigned char *)tj3Alloc(cap), *jb = jb0; size_t js = cap;
+    rc = tj3Compress8(h2, img, w, 0, hgt, TJPF_RGB, &jb, &js);
+    if (rc < 0 || js != refsize || memcmp(jb, ref, refsize)) { bad = 1; snprintf(why, sizeof(why), "reallocation enabled, initial capacity %zu: rc=%d size %zu (the JPEG has %zu bytes)", cap, rc, js, refsize); }
+    else if (jb == jb0 && cap < refsize) { bad = 1; snprintf(why, sizeof(why), "reallocation enabled, initial capacity %zu below the JPEG size %zu: buffer not replaced", cap, refsize); }
+    if (jb != jb0) tj3Free(jb);
+    tj3Free(jb0);
+    tj3Destroy(h2);
+  }
+  if (bad) printf("O fail capsweep %s\n", why); else printf("O ok\n");
+done:
+  tj3Free(ref); free(img); free(icc); tj3Destroy(h);
+  return 1;
+}
+
 #ifdef C13_WRAP
 /* A one-slot allocator under malloc/free (the executor of C13 is linked with --wrap=malloc,free): while armed, a request of
  * 256..32768 bytes is served from the slot when the slot is free, so that "free the buffer, allocate another one" puts the new
@@ -272,6 +320,7 @@ done:
 static int dispatch_c13(toks_t *t)
 {
   const char *op = t->tok[0];
+  if (!strcmp(op, "capsweep") && t->n >= 7) return op_capsweep(t);
 #ifdef C13_WRAP
   if (!strcmp(op, "aba") && t->n >= 6) return op_aba(t);
 #endif
